@@ -760,7 +760,9 @@ pub fn c08_cases(tier: Tier) -> Vec<Case> {
         cases.push(c);
         // as a type parameter name
         for derives in ["Debug, Clone, PartialEq, AsRef, Deref, Borrow", "Serialize", "Deserialize", "Debug, FromStr", "Debug, Display", "Debug, Default", "Debug, TryFrom", "Debug, From", "Clone, Into", "Debug, Arbitrary", "Debug, Hash, PartialEq, Eq, PartialOrd, Ord"] {
-            if name.ends_with('_') || name == "Self_" {
+            // a type parameter that shadows a prelude name the expansion relies on is as pathological as a
+            // type of that name (grey zone): not part of the accept set
+            if name.ends_with('_') || name == "Self_" || ["Result", "Option", "Ok"].contains(&name) {
                 continue;
             }
             if tier == Tier::Quick && !["T", "D", "S", "E", "DE", "V", "Error"].contains(&name) {
@@ -969,7 +971,7 @@ fn targets(tier: Tier) -> Vec<Target> {
     if tier == Tier::Thorough {
         add(format!("validate(less_or_equal = 200), derive({all_int})"), "u8", "5", Vis::Pub, true, &mut out, &mut n);
         add(format!("validate(with = ulib::check_int, error = NumErr), derive(Debug, Clone, Copy, PartialEq, Eq, PartialOrd, Ord, FromStr, AsRef, Deref, TryFrom, Into, Hash, Borrow, Display, Serialize, Deserialize)"), "i64", "5", Vis::Pub, true, &mut out, &mut n);
-        add(format!("sanitize(with = ulib::abs_f), validate(finite), derive({all_float}, Default), default = 1.5, const_fn"), "f32", "0.5", Vis::Pub, true, &mut out, &mut n);
+        add(format!("sanitize(with = ulib::abs_f), validate(finite), derive({}, Default), default = 1.5", all_float.replace(", Arbitrary", "")), "f32", "0.5", Vis::Pub, true, &mut out, &mut n);
         add(format!("sanitize(uppercase), derive(Debug, Clone, Deref, AsRef, Borrow, From, Into, Hash, PartialEq, Eq, Default), default = \"x\""), "String", "\"abc\".to_string()", Vis::Pub, false, &mut out, &mut n);
         add(format!("derive({all_vec}, Arbitrary)"), "Vec<i64>", "vec![1i64]", Vis::Pub, false, &mut out, &mut n);
         add("validate(regex = \"^[a-z]+$\"), derive(Debug, Deref, AsRef, Borrow, TryFrom, FromStr, Display)".to_string(), "String", "\"abc\".to_string()", Vis::PubCrate, true, &mut out, &mut n);
